@@ -79,6 +79,9 @@ type Style struct {
 	// it says)
 	Join bool
 	NL      []byte // line ending
+	// Trail is horizontal whitespace between a block comment's end and the
+	// line end ("" = none)
+	Trail []byte
 	gaps    int    // symbolic separators still available
 	Tab     bool   // indent with tabs
 	// DeprSame puts a [deprecated("..")] attribute on the same line as the
@@ -175,7 +178,7 @@ func printBlock(b []byte, s *Style, ind []byte, lines []string) []byte {
 	if len(lines) == 0 || s.OneLine {
 		return b
 	}
-	return app(b, ind, "/*", blockText(lines, s, ind), "*/", s.NL)
+	return app(b, ind, "/*", blockText(lines, s, ind), "*/", s.Trail, s.NL)
 }
 
 func commentOf(block []string, doc string, s *Style, ind []byte) string {
@@ -217,7 +220,7 @@ func deprInline(s *Style, depr bool, msg string) []byte {
 
 func (d Def) print(b []byte, s *Style, ind []byte) []byte {
 	if d.BlockDoc != "" {
-		b = app(b, ind, "/*", d.BlockDoc, "*/", s.NL)
+		b = app(b, ind, "/*", d.BlockDoc, "*/", s.Trail, s.NL)
 	}
 	if d.Doc != "" {
 		b = app(b, ind, "//", d.Doc, s.NL)
